@@ -104,7 +104,7 @@ func runC17(c *ev.Ctx) {
 			}
 			if msg != "" {
 				wit := c17Wit{"Sort", seqStrings(vals), c17HistNames[h], c17AliasNames[al]}
-				c.Violate(ev.Violation{Sig: sig, Msg: msg, Witness: wit}, func() string { m, _ := c17Sort(kind, vals, h, al); return m })
+				c.Violate(ev.Violation{Sig: sig, Msg: msg, Witness: wit}, func() string { _, s := c17Sort(kind, vals, h, al); return s })
 			}
 		})
 		if done < total {
@@ -132,7 +132,7 @@ func runC17(c *ev.Ctx) {
 			if msg != "" {
 				wit := c17Wit{"Reverse", namesOf(dg), c17HistNames[h], ""}
 				dg2 := append([]int{}, dg...)
-				c.Violate(ev.Violation{Sig: sig, Msg: msg, Witness: wit}, func() string { m, _ := c17Reverse(dg2, h); return m })
+				c.Violate(ev.Violation{Sig: sig, Msg: msg, Witness: wit}, func() string { _, s := c17Reverse(dg2, h); return s })
 			}
 		})
 		if done < total {
@@ -162,7 +162,7 @@ func runC17(c *ev.Ctx) {
 			if msg != "" {
 				wit := c17Wit{"Sort-panic", namesOf(dg), c17HistNames[h], ""}
 				dg2 := append([]int{}, dg...)
-				c.Violate(ev.Violation{Sig: sig, Msg: msg, Witness: wit}, func() string { m, _ := c17SortPanic(dg2, h); return m })
+				c.Violate(ev.Violation{Sig: sig, Msg: msg, Witness: wit}, func() string { _, s := c17SortPanic(dg2, h); return s })
 			}
 		})
 		if done < total {
@@ -244,7 +244,9 @@ func c17Sort(kind string, vals []interface{}, h, al int) (msg, sig string) {
 	if ret != l {
 		return fmt.Sprintf("Sort on %s returned a different handle than the receiver", showSeq(vals)), pfx + "handle"
 	}
-	for name, view := range map[string]at.List{"receiver": l, "parent list element": parent.GetList(0), "parent object field": pobj.GetList("k")} {
+	views := []at.List{l, parent.GetList(0), pobj.GetList("k")}
+	for vi, name := range []string{"receiver", "parent list element", "parent object field"} {
+		view := views[vi]
 		if view != l {
 			return fmt.Sprintf("after Sort the %s is no longer the identical list", name), pfx + "alias-identity"
 		}
